@@ -32,3 +32,6 @@ int dc_lookup(char *host, char *stored) { return aclHostDomainCompare(host, stor
 int dc_compare(char *a, char *b) { return Acl::SplayInserter_charp::Compare(a, b); }
 int dc_issubset(char *a, char *b) { return Acl::SplayInserter_charp::IsSubset(a, b) ? 1 : 0; }
 }
+
+// value normalisation done by ACLDomainData::parse() before a token is stored (real text, cut at run time)
+#include "dd_norm.inc"
